@@ -74,7 +74,7 @@ class Config:
 
 
 def random_config(rng: random.Random, *, seg=None, ndim=None, allow3d_shape=True,
-                  builds=("noids", "ids_fd", "df"), extras=True, p3d=0.25,
+                  builds=("noids", "ids_fd", "df", "from_tracks"), extras=True, p3d=0.25,
                   ellipse3d=True) -> Config:
     nd = ndim if ndim is not None else (4 if rng.random() < p3d else 3)
     sg = seg if seg is not None else (rng.random() < 0.6)
@@ -293,7 +293,7 @@ def box_blob(rng, occupied):
 
 
 # ----------------------------------------------------------------------------- tracks
-TIME_KEYS = {"noids": "time", "ids_fd": "t", "df": "time"}
+TIME_KEYS = {"noids": "time", "ids_fd": "t", "df": "time", "from_tracks": "time"}
 
 
 def build_graph(cfg: Config, forest: Forest, rng: random.Random, with_ids: bool,
@@ -352,11 +352,18 @@ def build_tracks(cfg: Config):
     build = cfg.build
     if build == "df" and (len(forest.times) == 0):
         build = "noids"  # an empty table cannot be imported
-    if build == "noids":
+    if build in ("noids", "from_tracks"):
         g = build_graph(cfg, forest, rng, with_ids=False, time_key="time")
         pos_attr = axes if cfg.pos_mode == "axes" else None
-        tracks = SolutionTracks(g, segmentation=seg, pos_attr=pos_attr, scale=scale,
-                                ndim=cfg.ndim)
+        if build == "from_tracks":
+            # a plain Tracks object (candidate-graph style, no ids) converted to a solution
+            from funtracks.data_model import Tracks
+
+            plain = Tracks(g, segmentation=seg, pos_attr=pos_attr, scale=scale, ndim=cfg.ndim)
+            tracks = SolutionTracks.from_tracks(plain)
+        else:
+            tracks = SolutionTracks(g, segmentation=seg, pos_attr=pos_attr, scale=scale,
+                                    ndim=cfg.ndim)
     elif build == "ids_fd":
         g = build_graph(cfg, forest, rng, with_ids=True, time_key="t")
         feats: dict[str, Any] = {"t": Time()}
